@@ -259,6 +259,7 @@ def run(ctx):
                         if tag(ui) == "field" and payload(ui)[0] == "open" and tag(v) == "param":
                             redundant_rejected = True
         sites = 0
+        wrong_flag = False   # the message sent is SetOpen{open: false}
         bad = None
         # a helper the iteration was moved into (returns the messages) is opened, so that the open-filter is seen
         # where it is written
@@ -276,6 +277,9 @@ def run(ctx):
                 if not mv or mv[1] != "SetOpen":
                     continue
                 sites += 1
+                ov = ix.inline(mv[2].get("open")) if mv[2].get("open") is not None else None
+                if not (ov is not None and tag(ov) == "bool" and not payload(ov)[0]):
+                    wrong_flag = True
                 k, inner = s.wasm_msg()
                 target = ix.inline(sym.field(inner, "contract_addr"))
                 # the filter: a fact (State.open of <target>, True) on this path
@@ -333,11 +337,12 @@ def run(ctx):
         ctx.inst("R14.5", "shutdown-visits-all:%s" % short_fn(a.fn), stops is None, a.fn.where(),
                  "after observing a closed vAMM the loop %s" % ("advances to the next registry entry" if stops is None else
                  "EXITS: vAMMs registered after an already-closed one are never closed"))
-        ok = sites > 0 and (bad is None or not redundant_rejected)
+        ok = sites > 0 and (bad is None or not redundant_rejected) and not wrong_flag
         ctx.inst("R14.5", "shutdown-robust:%s" % short_fn(a.fn), ok, a.fn.where(),
                  "%d SetOpen{false} emission(s) on the (bounded) success paths; vAMM rejects a redundant close: %s; %s" % (
-                     sites, redundant_rejected, "each emission is preceded by State.open==true of the same vAMM" if bad is None else
-                     "an emission is NOT conditioned on the vAMM being open: one already-closed vAMM aborts the whole shutdown"))
+                     sites, redundant_rejected, "the shutdown sends SetOpen with open != false: it does not close the vAMM" if wrong_flag else
+                     ("each emission is preceded by State.open==true of the same vAMM" if bad is None else
+                      "an emission is NOT conditioned on the vAMM being open: one already-closed vAMM aborts the whole shutdown")))
     except KeyError as e:
         ctx.lost("R14.5", str(e))
 
